@@ -136,7 +136,16 @@ IxOK(t, ix) ==
       [] ix.k = "col"  -> ix.j \in 1..Cols(t)
       [] ix.k = "all"  -> TRUE
       [] ix.k = "rowslice" -> ix.i \in 1..Rows(t) /\ ix.lo \in 0..Cols(t) /\ ix.hi \in ix.lo..Cols(t)
+      [] ix.k = "rows"    -> Len(ix.idx) >= 1 /\ \A k \in DOMAIN ix.idx : ix.idx[k] \in 1..Rows(t)
+      [] ix.k = "rowscol" -> Len(ix.idx) >= 1 /\ ix.j \in 1..Cols(t) /\ \A k \in DOMAIN ix.idx : ix.idx[k] \in 1..Rows(t)
+      [] ix.k = "cells"   -> /\ Len(ix.idx) >= 1 /\ Len(ix.idx) = Len(ix.jdx)
+                             /\ \A k \in DOMAIN ix.idx : ix.idx[k] \in 1..Rows(t) /\ ix.jdx[k] \in 1..Cols(t)
       [] OTHER -> FALSE
+\* item assignment through an index list is specified only when no position is named twice
+IxDistinct(ix) ==
+  CASE ix.k \in {"rows", "rowscol"} -> \A k1, k2 \in DOMAIN ix.idx : k1 # k2 => ix.idx[k1] # ix.idx[k2]
+    [] ix.k = "cells" -> \A k1, k2 \in DOMAIN ix.idx : k1 # k2 => <<ix.idx[k1], ix.jdx[k1]>> # <<ix.idx[k2], ix.jdx[k2]>>
+    [] OTHER -> TRUE
 GetItem(t, ix) ==
   IF t.nd = 1 THEN
      IF ix.k = "int" THEN T0(t.e[ix.i], t.b)
@@ -147,6 +156,9 @@ GetItem(t, ix) ==
       [] ix.k = "col"  -> T1([i \in 1..Rows(t) |-> t.e[i][ix.j]], t.b)
       [] ix.k = "all"  -> t
       [] ix.k = "rowslice" -> T1([k \in 1..(ix.hi - ix.lo) |-> t.e[ix.i][ix.lo + k]], t.b)
+      [] ix.k = "rows"    -> T2([k \in DOMAIN ix.idx |-> t.e[ix.idx[k]]], t.b)
+      [] ix.k = "rowscol" -> T1([k \in DOMAIN ix.idx |-> t.e[ix.idx[k]][ix.j]], t.b)
+      [] ix.k = "cells"   -> T1([k \in DOMAIN ix.idx |-> t.e[ix.idx[k]][ix.jdx[k]]], t.b)
 
 \* value conversion when storing into a float / boolean container
 Store(tb, y, i, j) == IF tb THEN AtB(y, i, j) ELSE At(y, i, j)
@@ -170,6 +182,19 @@ SetItem(t, ix, y) ==      \* new tensor or Reject
                           THEN T2([i \in 1..Rows(t) |-> [t.e[i] EXCEPT ![ix.j] = Store(t.b, y, 1, i)]], t.b) ELSE Reject
       [] ix.k = "all"  -> IF Rows(y) \in {0, 1, Rows(t)} /\ Cols(y) \in {0, 1, Cols(t)}
                           THEN T2([i \in 1..Rows(t) |-> [j \in 1..Cols(t) |-> Store(t.b, y, i, j)]], t.b) ELSE Reject
+      [] ix.k = "rows" -> IF Rows(y) \in {0, 1, Len(ix.idx)} /\ Cols(y) \in {0, 1, Cols(t)}
+                          THEN T2([i \in 1..Rows(t) |-> IF \E k \in DOMAIN ix.idx : ix.idx[k] = i
+                                     THEN [j \in 1..Cols(t) |-> Store(t.b, y, CHOOSE k \in DOMAIN ix.idx : ix.idx[k] = i, j)]
+                                     ELSE t.e[i]], t.b) ELSE Reject
+      [] ix.k = "rowscol" -> IF y.nd <= 1 /\ Cols(y) \in {0, 1, Len(ix.idx)}
+                          THEN T2([i \in 1..Rows(t) |-> IF \E k \in DOMAIN ix.idx : ix.idx[k] = i
+                                     THEN [t.e[i] EXCEPT ![ix.j] = Store(t.b, y, 1, CHOOSE k \in DOMAIN ix.idx : ix.idx[k] = i)]
+                                     ELSE t.e[i]], t.b) ELSE Reject
+      [] ix.k = "cells" -> IF y.nd <= 1 /\ Cols(y) \in {0, 1, Len(ix.idx)}
+                          THEN T2([i \in 1..Rows(t) |-> [j \in 1..Cols(t) |->
+                                     IF \E k \in DOMAIN ix.idx : ix.idx[k] = i /\ ix.jdx[k] = j
+                                     THEN Store(t.b, y, 1, CHOOSE k \in DOMAIN ix.idx : ix.idx[k] = i /\ ix.jdx[k] = j)
+                                     ELSE t.e[i][j]]], t.b) ELSE Reject
 
 ---------------------------------------------------------------------------
 (* operands: o = [k, ref, t];  k = "ref": the object named o.ref, otherwise the literal
@@ -203,7 +228,7 @@ Pre(s, op, a) ==
     [] op = "ilog" -> /\ a.tgt \in Names /\ Kind[a.tgt] = "lvec" /\ a.f \in Logic
                       /\ (a.o.k = "ref" => a.o.ref \in Names)
                       /\ Val(s, a.o).b /\ Supported(s.objs[a.tgt], Val(s, a.o))
-    [] op = "setitem" -> /\ a.tgt \in Names /\ IxOK(s.objs[a.tgt], a.ix)
+    [] op = "setitem" -> /\ a.tgt \in Names /\ IxOK(s.objs[a.tgt], a.ix) /\ IxDistinct(a.ix)
                          /\ (a.o.k = "ref" => a.o.ref \in Names)
                          /\ Val(s, a.o).nd \in {0, 1, 2}
                          /\ a.ix.k = "mask" => Val(s, a.o).nd # 2     \* NumPy itself refuses 2-d values for boolean-mask assignment
@@ -358,7 +383,8 @@ Init == /\ objs = [n \in Names |-> ZerosT(CASE Kind[n] = "arr" -> T2([i \in 1..N
         /\ ro = [n \in Names |-> FALSE]
         /\ path = <<>>
 
-Act(op, a) == /\ Pre(S, op, a) /\ SetS(Post(S, op, a))
+Act(op, a) == /\ (Pre(S, op, a) = TRUE)      \* "= TRUE": evaluate as a value, not as an action (no branching on \/)
+              /\ SetS(Post(S, op, a))
               /\ path' = Append(path, [op |-> op, a |-> a])
 
 IOp      == "iop" \in Ops /\ \E n \in Names, f \in Arith, k \in 1..6 : \E o \in Fam[k] : Act("iop", [tgt |-> n, f |-> f, o |-> o])
